@@ -2691,3 +2691,107 @@ def write_knobs(src_dir, out_path):
         with open(out_path, "w") as f:
             f.write(txt)
     return wc, ig, problems
+
+
+# re-synchronised after /repo fixes b1d94ba and 1a765e6: service() reads getattr(task.request, 'path', None) in its two log
+# lines and wraps the ladder's `task.service()  # must not fail` in one more handler (except BaseException: log;
+# task.close_on_finish = True).  Neither touches a shared channel attribute, a lock or a call on a shared object; the
+# worker now reaches the tail of service() where it used to leave it with the exception (C09_escape states the new flow).
+EXPECTED_SHAPE['channel.py:HTTPChannel.service'] = ['n:_L1 r:requests',
+ 'if(n:_L1 r:error){',
+ 'n:_L2 n:_L1',
+ '}else{',
+ 'n:_L2 n:_L1',
+ '}',
+ 'try{',
+ 'if(bool:And r:connected not r:will_close){',
+ 'n:_L2 call:service()',
+ '}else{',
+ 'n:_L2 w:close_on_finish const:True',
+ '}',
+ '}except(ClientDisconnected){',
+ "h:self.logger.info('S' % getattr(_L2.request, 'S', None))",
+ 'n:_L2 r:request const:None',
+ 'h:_L2.close_on_finish = True',
+ 'n:_L2 w:close_on_finish const:True',
+ '}except(BaseException){',
+ "h:self.logger.exception('S' % getattr(_L2.request, 'S', None))",
+ 'n:_L2 r:request const:None',
+ 'h:if not _L2.wrote_header',
+ 'if(not n:_L2){',
+ 'h:if self.adj.expose_tracebacks',
+ 'if(){',
+ 'h:_L3 = traceback.format_exc()',
+ 'n:_L3',
+ '}else{',
+ "h:_L3 = 'S'",
+ 'n:_L3',
+ '}',
+ 'h:_L4 = _L1.version',
+ 'n:_L4 n:_L1',
+ 'h:_L5 = _L1.headers',
+ 'n:_L5 n:_L1',
+ 'h:_L6 = self.parser_class(self.adj)',
+ 'n:_L6',
+ 'h:_L6.error = InternalServerError(_L3)',
+ 'n:_L6 w:error n:_L3',
+ 'h:_L6.version = _L4',
+ 'n:_L6 n:_L4',
+ "h:_L6.command = getattr(_L1, 'S', None)",
+ 'n:_L6 n:_L1 const:None',
+ 'try{',
+ "h:_L6.headers['S'] = _L5['S']",
+ 'n:_L6 n:_L5',
+ '}except(KeyError){',
+ 'h:pass',
+ 'pass',
+ '}',
+ 'h:_L2 = self.error_task_class(self, _L6)',
+ 'n:_L2 n:_L6',
+ 'try{',
+ 'h:_L2.service()',
+ 'n:_L2 call:service()',
+ '}except(ClientDisconnected){',
+ 'h:_L2.close_on_finish = True',
+ 'n:_L2 w:close_on_finish const:True',
+ '}except(BaseException){',
+ "h:self.logger.exception('S')",
+ 'h:_L2.close_on_finish = True',
+ 'n:_L2 w:close_on_finish const:True',
+ '}',
+ '}else{',
+ 'h:_L2.close_on_finish = True',
+ 'n:_L2 w:close_on_finish const:True',
+ '}',
+ '}',
+ 'if(n:_L2 r:close_on_finish){',
+ 'with(self.requests_lock){',
+ 'w:close_when_flushed const:True',
+ 'for(r:requests){',
+ 'n:_L1 call:close()',
+ '}',
+ 'w:requests',
+ '}',
+ '}else{',
+ 'if(r:requests cmp:Gt){',
+ 'call:_flush_outbufs_below_high_watermark()',
+ '}',
+ 'if(r:current_outbuf_count cmp:Gt){',
+ 'w:current_outbuf_count',
+ '}',
+ 'n:_L1 call:close()',
+ 'with(self.requests_lock){',
+ 'r:requests call:pop()',
+ 'if(bool:And r:connected r:requests){',
+ 'call:add_task()',
+ '}else{',
+ 'if(bool:And r:connected r:request cmp:IsNot const:None r:request r:expect_continue r:request r:headers_finished '
+ 'not r:sent_continue){',
+ 'const:False call:send_continue(do_close=False)',
+ '}',
+ '}',
+ '}',
+ '}',
+ 'if(r:connected){',
+ 'call:pull_trigger()',
+ '}']
